@@ -107,6 +107,11 @@ impl<'a> ParseChain<ActionExprChain> for ActionExprChainBuilder<'a> {
             chain.append_member(action_expr);
 
             if let Some(next) = next {
+                // Wrappers which are still open at the end of a step are closed there implicitly,
+                // so a deferred action starts with no open wrappers.
+                if next.application_type == ApplicationType::Deferred {
+                    wrapper_count = 0;
+                }
                 wrapper_count += match next.move_type {
                     MoveType::Wrap => 1,
                     MoveType::Unwrap => -1,
